@@ -27,8 +27,8 @@ pub fn prop() -> Prop {
         id: "C10",
         level: "exploration",
         runs: |t| match t {
-            Tier::Quick => 420,
-            Tier::Thorough => 6000,
+            Tier::Quick => 1600,
+            Tier::Thorough => 16000,
         },
         generate,
         exec,
